@@ -653,6 +653,17 @@ class UnionProxy:
     def __bytes__(self) -> bytes:
         return self.__target__.dumps()
 
+    def __bool__(self) -> bool:
+        return bool(self.__target__)
+
+    def __eq__(self, other: object) -> bool:
+        if isinstance(other, UnionProxy):
+            other = other.__target__
+        return self.__target__ == other
+
+    def __hash__(self) -> int:
+        return hash(self.__target__)
+
     def __getitem__(self, item: str) -> Any:
         return getattr(self.__target__, item)
 
